@@ -29,19 +29,22 @@ TEXT = {
             "value gives the bytes back. Stream prefix, Python stream object, ==: correspondence (prefix / suffix around "
             "the encoding, exact scope; success, root, re-encoding, ==, bytes consumed).",
             "Coq proof (full round-trip theorem, all types) + correspondence", "5 (C03)"),
-    "C04": ("Theorems: on ANY contents tree representing a node list (CRep: any mixture of zero summaries / expanded "
-            "zeros) a write at position i represents the updated list, an expanding write at |ns| represents ns++[v], and "
-            "the root is always the merkleisation of the represented list (no stale root). View level: for lists of "
-            "composite elements every valid history of element assignments and appends succeeds and ends in a "
-            "representation of exactly the implied list, whose len / elements / root are the spec's; fresh values are "
-            "representations too. pop, packed lists, bitfields, vectors, containers, unions: correspondence on histories "
-            "(each step vs model and vs fresh value).",
-            "Coq proof (CRep invariant, induction on depth and on histories) + correspondence", "5 (C04)"),
+    "C04": ("Theorems: a representation relation Repr t v n (node n represents value v through ANY contents tree: zero "
+            "summaries / expanded zeros in any mixture) with: C04_indistinguishable (every represented value of every type "
+            "has the root, encoding and reported length of the freshly constructed value); constructor trees are "
+            "representations; container field assignment, vector element assignment, list element assignment and append "
+            "(composite elements) preserve representation, as single steps and as arbitrary valid histories over values, "
+            "composing through any nesting depth; tree-level set / expanding append for every kind (CRep). pop, packed "
+            "element writes, bit operations, union change: correspondence on histories (each step vs model and vs fresh "
+            "value).",
+            "Coq proof (CRep / Repr invariants, induction on depth, types and histories) + correspondence", "5 (C04)"),
     "C05": ("Theorems on the store-of-view-cells model (hooks as data): a write through a child view stores the new backing "
             "in the child and, through its hook, at the child's position in the parent; the parent then reads back exactly "
-            "that backing (via the C07 read-back law); commands on unhooked views touch nothing else. One hook level "
-            "proved; deeper chains and interleavings of up to 9 simultaneously held views by correspondence.",
-            "Coq proof on the store model + correspondence", "5 (C05)"),
+            "that backing; commands on unhooked views touch nothing else. Value level (C05_*_child): writing a child's new "
+            "backing into a container / vector / list parent yields the parent's updated value with the fresh root and "
+            "encoding, composable along any chain of enclosing views. That the Python hook chains perform these writes for "
+            "interleavings of up to 9 simultaneously held views: correspondence.",
+            "Coq proof on the store model and the Repr invariant + correspondence", "5 (C05)"),
     "C06": ("Theorems: on the node heap (addresses, caches) every later allocation / write / root computation leaves what "
             "every existing address denotes unchanged (append-only objects; only root caches are written); copies carry no "
             "hook and commands on a copy leave every other held view unchanged. Tie: histories with copies + model-free "
